@@ -12,7 +12,7 @@ from __future__ import annotations
 
 import itertools
 
-from mc.common import Ctx, pmap
+from mc.common import Ctx, pmap, tag, pmap_tagged
 from mc.fd import DerivationTree, NonTerminal, Terminal, snap_full
 
 LEVEL = "model_checking"
@@ -292,7 +292,7 @@ def run(ctx: Ctx) -> None:
     for L in range(1, k + 1):
         for combo in itertools.product(names, repeat=L):
             items.append((combo, 2 if (ctx.quick or L == 4) else 3))
-    results = pmap(work, items, chunk=8)
+    results = pmap_tagged(work, items, chunk=8)
     seqs = shapes_n = outcomes = 0
     for r in results:
         seqs += r["seqs"]
